@@ -46,6 +46,7 @@ type harnessSummary struct {
 	Stubs          []string          `json:"stubs,omitempty"`
 	Units          []string          `json:"units,omitempty"`
 	viol           []Witness
+	sampleVecs     []Witness
 	knownW         map[string]Witness
 }
 
@@ -306,6 +307,9 @@ func runCheck(args []string) int {
 		if len(h.Samples) < 3 {
 			h.Samples = append(h.Samples, r.Samples...)
 		}
+		if len(h.sampleVecs) < 3 {
+			h.sampleVecs = append(h.sampleVecs, r.SampleVectors...)
+		}
 	}
 
 	// ---- native replay of every distinct violation (first witness per harness+message) and of known-finding witnesses
@@ -317,8 +321,9 @@ func runCheck(args []string) int {
 	type pending struct {
 		spec HarnessSpec
 		w    Witness
-		id   string
-		kf   string
+		id     string
+		kf     string
+		sample bool
 	}
 	var pend []pending
 	specOf := map[string]HarnessSpec{}
@@ -337,6 +342,12 @@ func runCheck(args []string) int {
 		}
 		for id, w := range h.knownW {
 			pend = append(pend, pending{spec: specOf[name], w: w, id: fmt.Sprintf("k%d", len(pend)), kf: id})
+		}
+		for k, w := range h.sampleVecs {
+			if k >= 2 {
+				break
+			}
+			pend = append(pend, pending{spec: specOf[name], w: w, id: fmt.Sprintf("s%d", len(pend)), sample: true})
 		}
 	}
 	byPkg := map[string][]ReplayJob{}
@@ -364,7 +375,7 @@ func runCheck(args []string) int {
 
 	anyReproduced := map[string]bool{}
 	for _, p := range pend {
-		if p.kf == "" && (p.spec.Replay == "none" || reproduced(p.w, status[p.id], fails[p.id])) {
+		if p.kf == "" && !p.sample && (p.spec.Replay == "none" || reproduced(p.w, status[p.id], fails[p.id])) {
 			anyReproduced[p.spec.Func+"|"+p.w.Msg] = true
 		}
 	}
@@ -374,7 +385,30 @@ func runCheck(args []string) int {
 	mismatches := 0
 	var samples []interface{}
 	reportedMsg := map[string]bool{}
+	samplesOK := 0
 	for _, p := range pend {
+		if p.sample {
+			// differential validation of the encoder: a path the engine found violation-free must pass natively
+			if p.spec.Replay == "none" {
+				continue
+			}
+			replayed++
+			switch status[p.id] {
+			case "PASS":
+				samplesOK++
+			case "NOT-REPLAYABLE":
+				replayed-- // the native environment cannot reproduce this input (stated by the harness)
+			case "FAIL", "PANIC":
+				path := writeReplayFile(prop, p.spec, Witness{Msg: "native failure on a path the engine considered violation-free: " + strings.Join(fails[p.id], "; "), Trace: p.w.Trace, Inputs: p.w.Inputs}, status[p.id])
+				violLines = append(violLines, fmt.Sprintf("VIOLATION property=%s replay=%s", prop, path))
+				fmt.Printf("  harness=%s: the native run of a sampled path FAILS although the engine found no violation on it (%v); witness: %s\n", p.spec.Func, fails[p.id], p.w.Inputs)
+				exit = 1
+			default:
+				mismatches++
+				inconcLines = append(inconcLines, fmt.Sprintf("INCONCLUSIVE property=%s harness=%s reason=sample path could not be validated natively (status %q) witness %s", prop, p.spec.Func, status[p.id], p.w.Inputs))
+			}
+			continue
+		}
 		ok := false
 		native := "engine-only (no native replay for this harness)"
 		if p.spec.Replay == "none" {
@@ -504,6 +538,7 @@ func runCheck(args []string) int {
 			"inconclusive":                  inconcLines,
 			"known_findings_matched":        kfMatched,
 			"encoder_mismatches":            mismatches,
+			"sample_paths_validated_natively": samplesOK,
 			"explanation":                   "states = complete symbolic paths explored (each path covers every input satisfying its path condition); transitions = solver-decided branch decisions; obligations = assertion checks posed to the SMT solver on those paths, discharged = those answered unsat; every sat answer is replayed natively against the real build before it is reported",
 			"exhaustive":                    false,
 		},
